@@ -13,7 +13,7 @@ CLASS_LAYER = [PA + 'Pauli.__matmul__#Pauli', PA + 'Pauli.__neg__', PA + 'Pauli.
                PA + 'PauliList.rotate_by#nomask', PA + 'PauliList.transform_by#nomask', PA + 'PauliList.rotate_by#mask', PA + 'PauliList.transform_by#mask', ST + 'CliffordMap.copy', ST + 'CliffordMap.compose',
                ST + 'CliffordMap.to_state#r', ST + 'CliffordMap.to_state#none', ST + 'StabilizerState.copy', ST + 'StabilizerState.to_map',
                ST + 'StabilizerState.expect#list', ST + 'identity_map', ST + 'StabilizerState.measure#list', ST + 'StabilizerState.postselect',
-               ST + 'StabilizerState.expect#state', ST + 'CliffordMap.inverse', 'pyclifford/circuit.py::MeasureLayer.forward', PA + 'PauliList.__neg__', PA + 'PauliList.rotate_by#state', PA + 'PauliList.transform_by#state', PA + 'PauliPolynomial.__matmul__#poly', PA + 'Pauli.__matmul__#Monomial',
+               ST + 'StabilizerState.expect#state', ST + 'CliffordMap.inverse', ST + 'clifford_rotation_map', ST + 'zero_state', ST + 'maximally_mixed_state', 'pyclifford/circuit.py::MeasureLayer.forward', PA + 'PauliList.__neg__', PA + 'PauliList.rotate_by#state', PA + 'PauliList.transform_by#state', PA + 'PauliPolynomial.__matmul__#poly', PA + 'Pauli.__matmul__#Monomial',
                'pyclifford/circuit.py::CliffordGate.forward#generator_global', 'pyclifford/circuit.py::CliffordGate.backward#generator_global',
                'pyclifford/circuit.py::CliffordGate.forward#map_global'] + GATES[3:] + LOCAL_GATES + \
               [PA + '%s.__rmul__#%s' % (c, t) for c in ('Pauli', 'PauliList') for t in ('1', 'i', 'm1', 'mi')]
@@ -46,8 +46,8 @@ def C01(run):
 
 def C02(run):
     run.deductive(keys=[U + 'clifford_rotate', U + 'clifford_rotate_signless', U + 'acq', U + 'ipow', PA + 'PauliList.rotate_by#nomask', PA + 'PauliList.rotate_by#state',
-                        PA + 'PauliList.rotate_by#mask'],
-                  lemmas=['acq_bilinear', 'acq_antisym', 'ipow_parity', 'rotate_twice', 'mask_index'])
+                        PA + 'PauliList.rotate_by#mask', ST + 'clifford_rotation_map'],
+                  lemmas=['acq_bilinear', 'acq_antisym', 'ipow_parity', 'rotate_twice', 'mask_index', 'acq_unit', 'acqsum_ext', 'ipowsum_ext'])
     run.bounded_check('c02_rotation', _b().c02_rotation, Nmax=q(run, 2, 3))
     return 'other', ('deductive (all N, all L): clifford_rotate leaves commuting rows unchanged and replaces anticommuting rows by '
                      'i*P*G with the exact phase, modifies only gs/ps; bounded: rotate_by on every receiver kind, all masks, '
@@ -137,7 +137,8 @@ def C11(run):
 
 
 def C12(run):
-    run.deductive(keys=[U + 'map_to_state', U + 'state_to_map', ST + 'CliffordMap.to_state#r', ST + 'CliffordMap.to_state#none', ST + 'StabilizerState.to_map', ST + 'identity_map', U + 'stabilizer_project'], lemmas=['acq_bilinear', 'acq_antisym'])
+    run.deductive(keys=[U + 'map_to_state', U + 'state_to_map', ST + 'CliffordMap.to_state#r', ST + 'CliffordMap.to_state#none', ST + 'StabilizerState.to_map', ST + 'identity_map', U + 'stabilizer_project',
+                        ST + 'zero_state', ST + 'maximally_mixed_state'], lemmas=['acq_bilinear', 'acq_antisym'])
     run.bounded_check('c12_states', _b().c12_states, Nmax=q(run, 3, 3), count=q(run, 20, 300))
     return 'other', ('deductive (all N): map_to_state / state_to_map are the exact row and phase permutations (Z-images -> stabilizers, '
                      'X-images -> destabilizers); bounded: constructors, to_state/to_map round trip, to_qutip, stabilizer_state against dense matrices')
